@@ -450,7 +450,7 @@ def r05f(R):
             'jump itself, which fix_break_addrs subtracts')
     fix = A.func(CONTEXT, 'Context.fix_break_addrs')
     bj = Inst(Lin.sym('B'), None, None, Lin.sym('B'))
-    ev = AffineEval(A, fix, C, {'<iter:inst>': bj},
+    ev = AffineEval(A, fix, C, {'<iter>': bj},
                     codegen_names=('code_gen', 'self'))
     try:
         ev.run(straight_body(fix))
@@ -472,14 +472,10 @@ def r05f(R):
             'the jump instruction')
     # jump table: ALWAYS / IF_FALSE / IF_TRUE
     table = None
-    for n in walk_own(jmp.node):
-        if isinstance(n, ast.Dict):
-            try:
-                t = A.fold(n, jmp)
-            except Exception:
-                continue
-            if t and all(isinstance(k, EnumVal) for k in t):
-                table = t
+    for t, _n in A.tables_in(jmp):
+        if all(isinstance(k, EnumVal) and k.enum == 'JumpCondition' for k in t) \
+                and all(isinstance(v, dict) for v in t.values()):
+            table = t
     want = {'ALWAYS': {True: True, False: True},
             'IF_FALSE': {True: False, False: True},
             'IF_TRUE': {True: True, False: False}}
@@ -529,6 +525,13 @@ def r05g(R):
         op = A.try_fold(jumps[0].args[0], gc)
         cond = A.try_fold(jumps[0].args[1], gc)
         ev = AffineEval(A, gc, 0, {}, len_syms={'self._routine_segment': S})
+        for st in straight_body(gc):
+            if isinstance(st, ast.Assign) and isinstance(st.targets[0], ast.Name) \
+                    and not isinstance(st.value, ast.List):
+                try:
+                    ev.stmt(st)
+                except NotAffine:
+                    pass
         try:
             disp = as_lin(ev.ev(jumps[0].args[2]))
             okj = isinstance(op, EnumVal) and op.member == 'JUMP' and \
